@@ -85,7 +85,12 @@ def generate(rng, tier, index):
     # on the last line
     eol = {u: TF.eol_choice(rng) for u in sorted(uni["res"])}
     return {"prop": ID, "schema_xml": xml, "ir": ir, "uni": uni, "mode": mode,
-            "kinds": kinds, "eol": eol}
+            "kinds": kinds, "eol": eol,
+            # 'loader' mode: does the accepted baseline text go through the
+            # shared ConfigLoader first, or is the first thing that loader
+            # ever reads already a rejected text (every later injection then
+            # follows a REJECTED load of the same URLs with other content)
+            "loader_baseline": rng.random() < 0.5}
 
 
 def _load(schema, world, res, top, mode, eol=None, loader=None):
@@ -158,19 +163,35 @@ def execute(plan):
         loader = None
         if mode == "loader":
             loader = ZConfig.loader.ConfigLoader(schema)
+        bloader = loader
+        if mode == "loader" and not plan.get("loader_baseline", True):
+            bloader = ZConfig.loader.ConfigLoader(schema)
         bo = ops.config_outcome(
-            lambda: _load(schema, w, base_res, top, mode, eol, loader))
+            lambda: _load(schema, w, base_res, top, mode, eol, bloader))
         out["evaluations"] += 1
         if not bo["ok"]:
             out["waste"] += 1
             out["log"].append("baseline rejected: " + ops.brief(bo))
             return out
+        before = list(plan.get("only_before") or ())
         if plan.get("only") is not None:
             injs = [plan["only"]]
+            if mode == "loader":
+                # the violation was seen on a loader that had already served
+                # these other injected texts
+                for b in before:
+                    res0 = TF.apply(base_res, b)
+                    w.begin_op("inject-before")
+                    ops.config_outcome(lambda: _load(
+                        schema, w, res0, top, mode, eol, loader))
+                    out["evaluations"] += 1
         else:
             injs = TF.enumerate_injections(ir, uni, plan.get("kinds"))
         xmlh = hashlib.sha256(plan["schema_xml"].encode()).hexdigest()[:8]
+        served = list(before)
         for inj in injs:
+            before = list(served)
+            served.append(inj)
             res = TF.apply(base_res, inj)
             w.begin_op("inject")
             o = ops.config_outcome(
@@ -198,6 +219,7 @@ def execute(plan):
             for clause, detail in check(inj, o, top, mode):
                 focused = dict(plan)
                 focused["only"] = inj
+                focused["only_before"] = before if mode == "loader" else []
                 key = {"clause": clause, "kind": inj["kind"],
                        "spelling": inj["spelling"], "cls": o["cls"],
                        "site": o.get("site")}
@@ -218,6 +240,19 @@ def shrink(plan):
     inj = plan.get("only")
     uni = plan["uni"]
     if inj is None:
+        return
+    hist = plan.get("only_before") or []
+    if hist:
+        # which of the preceding loads on the same loader does it need?
+        cands = [[], hist[:1], hist[-1:]]
+        if len(hist) > 2:
+            cands += [hist[:len(hist) // 2], hist[len(hist) // 2:]]
+        cands += [hist[:i] + hist[i + 1:] for i in range(min(len(hist), 8))]
+        for c in cands:
+            if len(c) < len(hist):
+                new = dict(plan)
+                new["only_before"] = c
+                yield new
         return
     # 1. drop whole non-culprit resources is not possible (includes); instead
     #    drop single lines / balanced ranges from each resource
